@@ -122,8 +122,23 @@ fn emit_fw<W: Write>(w: &mut W, c: &fw::FwCase, p: &mut util::Prng) {
     let body = text.strip_suffix("end\n").unwrap_or(&text);
     let _ = w.write_all(body.as_bytes());
     let _ = w.write_all(det.as_bytes());
-    if let Some(ni) = fw::ni_line(c) {
-        let _ = w.write_all(ni.as_bytes());
+    // the solo run of the probe machine (C10), supervised like the others
+    {
+        let (tx, rx) = std::sync::mpsc::channel::<Option<String>>();
+        let c2 = c.clone();
+        let _ = std::thread::Builder::new().stack_size(64 << 20).spawn(move || {
+            let _ = tx.send(fw::ni_line(&c2));
+        });
+        match rx.recv_timeout(std::time::Duration::from_secs(20)) {
+            Ok(Some(ni)) => {
+                let _ = w.write_all(ni.as_bytes());
+            }
+            Ok(None) => {}
+            Err(std::sync::mpsc::RecvTimeoutError::Timeout) => {
+                let _ = w.write_all(b"ni fail the solo run of the probe machine did not return (hang)\n");
+            }
+            Err(_) => {}
+        }
     }
     let _ = w.write_all(b"end\n");
 }
